@@ -38,9 +38,10 @@ import (
 )
 
 var (
-	rxPunctuation = regexp.MustCompile(`\s+([.?!,;])\s*(\S*)`)
-	rxTempNewline = regexp.MustCompile(`\s*\|\\/\|\s*`)
-	rxStyleValue  = regexp.MustCompile(`^[\w-]+$`)
+	rxPunctuation  = regexp.MustCompile(`\s+([.?!,;])\s*(\S*)`)
+	rxTempNewline  = regexp.MustCompile(`\s*\|\\/\|\s*`)
+	rxStyleValue   = regexp.MustCompile(`^[\w-]+$`)
+	rxStyleComment = regexp.MustCompile(`(?s)/\*.*?\*/`)
 
 	elementWithSizeAttr = map[string]struct{}{
 		"table": {},
@@ -558,6 +559,10 @@ func IsProbablyVisible(node *html.Node) bool {
 // "!important" priority are allowed and the last declaration of the property wins.
 func getInlineStyleValue(style string, property string) string {
 	result := ""
+	if strings.Contains(style, "/*") {
+		style = rxStyleComment.ReplaceAllString(style, "")
+	}
+
 	for _, declaration := range strings.Split(style, ";") {
 		name, value, found := strings.Cut(declaration, ":")
 		if !found || !strings.EqualFold(strings.TrimSpace(name), property) {
